@@ -292,6 +292,8 @@ def library_outputs_rule(chk):
 
     def ob(key, c, func):
         nonlocal n
+        if isinstance(c, tuple) and len(c) >= 2 and c[0] == "raise" and c[1] == "ValueError":
+            return  # the producer rejected its argument (documented precondition): nothing was produced
         n += 1
         prob = {"problem": "producer did not return a circuit", "result": str(c)[:120]} if not isinstance(c, RefCircuit) else lint_clean(c)
         chk.ob("C20.L.library-output-lint-clean", key, prob is None, file=FILE, func=func, fact=prob or {"nodes": len(c.nodes())}, expect="lint(c) does not raise")
@@ -325,7 +327,9 @@ def library_outputs_rule(chk):
         ob(f"fast parser::{name}", val(P.call("parsing/fast_verilog.py", "fast_parse_verilog_netlist", text, bbs)), "fast_parse_verilog_netlist")
     ob("bench reader", val(P.call("io.py", "bench_to_circuit", "INPUT(a)\nINPUT(b)\nOUTPUT(o)\nq = DFF(d)\nd = XOR(a, q)\no = NAND(q, b)\n", "b")), "bench_to_circuit")
     # transforms on lint-clean arguments
-    models = [(k, c) for k, c in deep_circuits()] + list(one_gate_circuits(max_arity=3, types=["nand", "xnor", "not"]))
+    from ..corpus import corpus
+
+    models = [(k, c) for k, c in deep_circuits()] + list(one_gate_circuits(max_arity=3, types=["nand", "xnor", "not"])) + [(f"corpus::{k}", c) for k, tags, c in corpus("quick", exclude=("x", "names", "wide"))]
     for k, c in models:
         if lint_clean(c) is not None:
             continue
